@@ -38,6 +38,9 @@ def digitChar (d : Nat) : Char := if d < 10 then Char.ofNat (48 + d) else Char.o
 def hexOfTag (t : Tag) : String :=
   String.ofList ((String.ofList t).toUTF8.toList.flatMap fun c => [digitChar (c.toNat / 16), digitChar (c.toNat % 16)])
 
+/-- body field, given whether `hydraide:"-"` is a skip marker -/
+def isBodyD (dash : Bool) (t : Tag) : Bool := isBody t && !(dash && head t == ['-'])
+
 def isTimeSlot : Slot → Bool
   | .expireAt | .createdAt | .updatedAt => true
   | _ => false
@@ -49,7 +52,7 @@ def slotCode : Slot → String
 def slotStr (s : Slot) : String := String.ofList (slotName s)
 
 /-- what the encoder leaves in the KeyValuePair for the probe {K:"kk", X:<"xv" | time>} -/
-def encObs (cfg : Cfg) (t : Tag) (timeProbe : Bool) : String :=
+def encObs (dash : Bool) (cfg : Cfg) (t : Tag) (timeProbe : Bool) : String :=
   let l := encSlots cfg t
   -- the first slot whose branch rejects the probe's Go type
   let bad := l.find? (fun s => if timeProbe then (s == .key || s == .createdBy || s == .updatedBy) else isTimeSlot s)
@@ -58,15 +61,15 @@ def encObs (cfg : Cfg) (t : Tag) (timeProbe : Bool) : String :=
   | none =>
     let k := if l.contains .key then "xv" else "kk"
     let marks := [Slot.value, .expireAt, .createdBy, .createdAt, .updatedBy, .updatedAt].filter l.contains
-    let parts := ["K=" ++ k] ++ marks.map slotCode ++ (if isBody t then ["B"] else [])
+    let parts := ["K=" ++ k] ++ marks.map slotCode ++ (if isBodyD dash t then ["B"] else [])
     ",".intercalate parts
 
 /-- what the decoder leaves in X from a treasure with every slot filled -/
-def decObs (cfg : Cfg) (t : Tag) (timeProbe : Bool) : String :=
+def decObs (dash : Bool) (cfg : Cfg) (t : Tag) (timeProbe : Bool) : String :=
   match (decSlots cfg t).head? with
   | none =>
-    if timeProbe then (if isBody t then "1672531204" else "zero")
-    else "s:" ++ (if isBody t then "tb" else "")
+    if timeProbe then (if isBodyD dash t then "1672531204" else "zero")
+    else "s:" ++ (if isBodyD dash t then "tb" else "")
   | some s =>
     if timeProbe then
       match s with
@@ -77,11 +80,11 @@ def decObs (cfg : Cfg) (t : Tag) (timeProbe : Bool) : String :=
       | .key => "s:tk" | .value => "s:tv" | .createdBy => "s:tcb" | .updatedBy => "s:tub"
       | _ => "panic"
 
-def shapeObs (t : Tag) : String :=
+def shapeObs (dash : Bool) (t : Tag) : String :=
   match headSlot t with
   | some .value => "shape=1 body="
   | some _ => "shape=0 body="
-  | none => if head t == [] then "shape=0 body=" else "shape=2 body=" ++ hexOfTag (head t)
+  | none => if !isBodyD dash t then "shape=0 body=" else "shape=2 body=" ++ hexOfTag (head t)
 
 def flagOf (cfg : Cfg) (t : Tag) : String :=
   if decide (Agree cfg t) then ""
@@ -206,14 +209,19 @@ def answer (cfg : Hv.SdkValues.Cfg) (slot : String) (k : Kind) (om : Bool) (v : 
 
 end V
 
-def step (cfg : Cfg) (vcfg : Hv.SdkValues.Cfg) (_ : Unit) (line : String) : Unit × String :=
+structure ShapeFacts where
+  bodySkipsUnexported : Bool
+  profileSkipsUnexported : Bool
+  dashIsSkip : Bool
+
+def step (cfg : Cfg) (vcfg : Hv.SdkValues.Cfg) (sh : ShapeFacts) (_ : Unit) (line : String) : Unit × String :=
   match line.splitOn " " with
   | ["case", _] => ((), line)
   | ["tag", h] =>
     match tagOf h with
     | none => ((), "bad-op")
     | some t =>
-      ((), s!"{shapeObs t} es={encObs cfg t false} et={encObs cfg t true} ds={decObs cfg t false} dt={decObs cfg t true}{flagOf cfg t}")
+      ((), s!"{shapeObs sh.dashIsSkip t} es={encObs sh.dashIsSkip cfg t false} et={encObs sh.dashIsSkip cfg t true} ds={decObs sh.dashIsSkip cfg t false} dt={decObs sh.dashIsSkip cfg t true}{flagOf cfg t}")
   | ["rt", h, kind, extra] =>
     match tagOf h with
     | none => ((), "bad-op")
@@ -241,6 +249,39 @@ def step (cfg : Cfg) (vcfg : Hv.SdkValues.Cfg) (_ : Unit) (line : String) : Unit
         -- the second save replaces the first one entirely: what comes back is the round trip of the LAST value
         else ((), V.answer vcfg slot k (om == "1") v2 (some v1))
       | _, _ => ((), "bad-op")
+  | ["pupd", kind, mode, d1, d2] =>
+    match V.kindOf kind with
+    | none => ((), "bad-op")
+    | some k =>
+      match V.valOf k d1, V.valOf k d2 with
+      | some v1, some v2 =>
+        if !(["n", "o", "d", "x"].contains mode) then ((), "bad-op") else
+        let om := mode == "o" || mode == "d"
+        let del := mode == "d" || mode == "x"
+        match Hv.SdkValues.profileUpdRT vcfg Hv.SdkValues.gobLib k om del v1 v2 with
+        | .err => ((), "err")
+        | .ok w =>
+          if w == v2 then ((), "same")
+          else if V.isNilOrEmpty v2 && V.isNilOrEmpty w then ((), "nilempty\t#F:C22-gob-nil-empty")
+          else if w == v1
+          then ((), "stale" ++ (if mode == "o" then "" else "\t#F:C22-void-overwrite-keeps-old-value"))
+          else if mode == "o" && some w == (match Hv.SdkValues.valueRT vcfg Hv.SdkValues.gobLib k false v1 with | .ok x => some x | .err => none)
+          then ((), "diff")     -- the stale value, itself changed by its own round trip (a truncated time)
+          else ((), "diff\t#F:C22-value-conversion")
+      | _, _ => ((), "bad-op")
+  | ["shape", nm] =>
+    -- structural shapes are outside the Lean model: expected outcomes keyed by the extracted facts
+    let r : String :=
+      match nm with
+      | "nested" | "ptrs" | "unexported-plain" | "prof-nested" => "same"
+      | "ptrs-nil" => if vcfg.bodySkipsNil then "same" else "err-read"
+      | "embedded" | "embedded-pub" | "prof-embedded" => "diff\t#F:C22-embedded-fields-dropped"
+      | "unexported-tagged" => if sh.bodySkipsUnexported then "same" else "panic-save\t#F:C22-unexported-field-panics"
+      | "prof-unexported" => if sh.profileSkipsUnexported then "same" else "panic-read\t#F:C22-unexported-field-panics"
+      | "dash" => if sh.dashIsSkip then "same" else "diff\t#F:C22-dash-tag-not-skipped"
+      | "dash-value" => if sh.dashIsSkip then "same" else "err-save\t#F:C22-dash-tag-not-skipped"
+      | _ => "bad-op"
+    ((), r)
   | _ => ((), "bad-op")
 
 def run (args : List String) : IO UInt32 := do
@@ -254,7 +295,8 @@ def run (args : List String) : IO UInt32 := do
     ⟨V.pairs V.factKind V.fieldOf (arg kv "valEnc"), V.pairs V.fieldOf V.contentOf (arg kv "valStore"),
      V.pairs V.contentOf V.fieldOf (arg kv "valRead"), V.decTable (arg kv "valDec"),
      yes "timeAsUnixSeconds", yes "structValueEncoded", yes "bodySkipsNil", yes "emptyLenZero", yes "emptyNegZero", yes "voidClearsContent"⟩
-  lineLoop (step cfg vcfg) ()
+  let sh : ShapeFacts := ⟨yes "bodySkipsUnexported", yes "profileSkipsUnexported", yes "dashIsSkip"⟩
+  lineLoop (step cfg vcfg sh) ()
   return 0
 
 end Driver.C22
